@@ -31,6 +31,16 @@ def core(v, prefix):
     return m.group(1) if m else None
 
 
+def core_exact(v, prefix):
+    """like core(), but only when the value is the field itself, possibly inside type conversions (``uint8_t(ni.channel)``):
+    a value computed from the field (``ni.nwk_update_id + 1``) is not the field."""
+    t = getattr(v, "tag", None)
+    if t is None:
+        return None
+    m = re.fullmatch(r"(?:[\w.]+\()*" + re.escape(prefix) + r"\.(\w+)\)*", t)
+    return m.group(1) if m else None
+
+
 def app_cls(ctx):
     return ctx.repo.cls(APP, "ControllerApplication")
 
@@ -75,8 +85,8 @@ def r14_2(ctx):
         prm = fm[0].kwargs.get("parameters", fm[0].args[0] if fm[0].args else None)
         if not isinstance(prm, Obj):
             raise AnalysisError("formNetwork parameters are not an EmberNetworkParameters built in write_network_info")
-        got = {(core(v, "ni"), k) for k, v in prm.fields.items() if isinstance(k, str) and core(v, "ni")}
-        ctx.require(got == PAIRS, "write:pairs", f"write_network_info feeds the network parameters with {sorted(got)}; the restore must set {sorted(PAIRS)}", func=f)
+        got = {(core_exact(v, "ni"), k) for k, v in prm.fields.items() if isinstance(k, str) and core(v, "ni")}
+        ctx.require(got == PAIRS, "write:pairs", f"write_network_info feeds the network parameters with {sorted(got, key=str)}; the restore must set {sorted(PAIRS)} (each from the field itself, not a value computed from it)", func=f)
         for k in prm.fields:
             if isinstance(k, str):
                 ctx.require(k in params_fields, f"write:field:{k}", f"EmberNetworkParameters has no field {k}", func=f)
@@ -102,14 +112,14 @@ def r14_2(ctx):
             arg = src.args[0] if src is not None and src.args else v
             c = core(arg, "nwk_params")
             if c:
-                got.add((k, c))
-        ctx.require(got == PAIRS, "load:pairs", f"load_network_info fills the network info from {sorted(got)}; the read-back must use {sorted(PAIRS)}", func=g)
+                got.add((k, core_exact(arg, "nwk_params")))
+        ctx.require(got == PAIRS, "load:pairs", f"load_network_info fills the network info from {sorted(got, key=str)}; the read-back must use {sorted(PAIRS)} (each field itself, not a value computed from it)", func=g)
         ctx.require(getattr(ni[0].kwargs.get("network_key"), "tag", "").startswith("ezsp.get_network_key") and
                     getattr(ni[0].kwargs.get("tc_link_key"), "tag", "") == "tclk", "load:keys",
                     f"keys read back as {ni[0].kwargs.get('network_key')!r} / {ni[0].kwargs.get('tc_link_key')!r}", func=g)
 
 
-def explore_load(ctx, bitmask, load_devices=False):
+def explore_load(ctx, bitmask, load_devices=False, extra_models=()):
     repo = ctx.repo
     g = repo.func(f"{APP}:ControllerApplication.load_network_info")
     es = repo.cls(NAMED, "EmberStatus").members()
@@ -124,7 +134,7 @@ def explore_load(ctx, bitmask, load_devices=False):
               ("ezsp.get_tc_link_key", lambda px, t, a, k, fr: Outcomes(OK(tclk()))),
               ("ezsp.getCurrentSecurityState", Outcomes(OK((es["SUCCESS"], state)))),
               ("self._ensure_network_running", Outcomes(OK(False))),
-              ("zigpy.types.KeyData", lambda px, t, a, k, fr: Obj(TypeRef("KeyData"), {"v": a[0]}, tag="wellknown"))]
+              ("zigpy.types.KeyData", lambda px, t, a, k, fr: Obj(TypeRef("KeyData"), {"v": a[0]}, tag="wellknown"))] + list(extra_models)
     px = PX(repo, models=models, inline=same_class(), max_paths=2000,
             facts={"(self.state.node_info.logical_type == zigpy.zdo.types.LogicalType.Coordinator)": True})
     return px.explore(g, lambda: (self_obj(app_cls(ctx), {"_ezsp": Obj(TypeRef("EZSP"), {"ezsp_version": 8}, tag="ezsp")}), {"load_devices": load_devices}))
@@ -151,6 +161,24 @@ def r14_7(ctx):
             ctx.require(hashed == want, f"hashed-flag:{bm:#06x}", f"security bitmask {bm:#06x} (hashed-link-key flag is {flag:#06x}): hashed key "
                         f"{'recorded' if hashed else 'not recorded'} in stack_specific ({ss!r:.60}); it must be recorded exactly when all bits of the flag are set",
                         func=g)
+            if hashed and want:
+                hv = ss["ezsp"]["hashed_tclk"]
+                # follow the value back through the calls that produced it (``<key>.serialize().hex()``) to the object it was read from
+                origin, cur, seen_ = None, hv, 0
+                while isinstance(cur, Sym) and seen_ < 6:
+                    seen_ += 1
+                    src = next((e for e in p.events if e.kind == "call" and e.extra == cur), None)
+                    if src is None:
+                        break
+                    origin = str(src.callee or src.what)
+                    recv = origin.rsplit(".", 1)[0]
+                    nxt = next((e.extra for e in p.events if e.kind == "call" and isinstance(e.extra, Sym) and e.extra.tag == recv), None)
+                    if nxt is None:
+                        break
+                    cur = nxt
+                ctx.require(origin is not None and origin.startswith("tclk.key"), f"hashed-source:{bm:#06x}",
+                            f"bitmask {bm:#06x}: the hashed link key recorded in stack_specific is {hv!r:.80} (computed from {origin}); it must be the key the NCP reports as its "
+                            "trust-centre link key", func=g)
             tk = ni[0].kwargs.get("tc_link_key") if ni else None
             if isinstance(tk, Obj):
                 sub = getattr(tk.fields.get("key"), "tag", "") == "wellknown"
@@ -534,8 +562,92 @@ def r14_10(ctx):
                 partner = next((getattr(v, "tag", None) for v in vals if str(getattr(v, "tag", "")).startswith("partner")), None)
                 key = next((getattr(v, "tag", None) for v in vals if str(getattr(v, "tag", "")).startswith("keydata")), None)
                 seen.append((partner, key))
+            idxs = [e.kwargs.get("index") for e in cmds if "index" in e.kwargs]
+            ctx.require(idxs in ([], [0, 1]), f"link-key-index:v{version}", f"v{version}: the two link keys are written at table indices {idxs}; the table is "
+                        "filled from index 0 (a shifted start wastes a slot and pushes the last key out of a full table)", func=wl, trace=p.trace(30))
             want = [("partner1", "keydata1"), ("partner2", "keydata2")]
             ctx.require(seen == want, f"link-keys:v{version}", f"v{version}: a backup with two link keys {want} leads to the key-table writes {seen} "
                         f"({[e.what.split('.')[-1] for e in cmds]}); every key must be written once, in order, with its own partner and key data",
                         func=wl, trace=p.trace(30))
         ctx.anchor(done >= 1, f"write_network_info completes (v{version})")
+
+
+@rule("R14.11", ["C14"], "T-FUN", floor=12)
+def r14_11(ctx):
+    """The child table on read-back: in every version read_child_data, over an NCP child table whose slots 0 and 2 are
+    occupied and all others empty, yields exactly those two children in order, each as (network address, EUI64, type) of its
+    own slot (slot 0 is read; an empty slot is skipped and does not end the scan); and load_network_info records every
+    child it is given in `children` and maps its EUI64 to its network address in `nwk_addresses` (also for address-table
+    entries) - the direction write_network_info reads the mapping in."""
+    repo = ctx.repo
+    es = repo.cls(NAMED, "EmberStatus").members()
+    sl = repo.cls(NAMED, "sl_Status").members()
+    for v in VERSIONS:
+        c = repo.cls(f"bellows.ezsp.v{v}", f"EZSPv{v}")
+        m = c.method("read_child_data")
+        ctx.fn(m)
+        cmds = repo.get(f"bellows.ezsp.v{v}.commands", "COMMANDS")
+        asked = []
+
+        def answer(px_, t, a, k, fr, cmds=cmds, v=v, asked=asked):
+            rx = cmds["getChildData"][2]
+            i = k.get("index", a[0] if a else None)
+            if not isinstance(i, int):
+                raise AnalysisError(f"v{v} read_child_data asks for slot {i!r}")
+            asked.append(int(i))
+            used = int(i) in (0, 2)
+            st_t = getattr(rx.get("status"), "name", "")
+            status = (sl["OK"] if used else sl["NOT_JOINED"]) if st_t == "sl_Status" else (es["SUCCESS"] if used else es["NOT_JOINED"])
+            child = Obj(TypeRef("EmberChildData"), {"id": Sym(f"nwk{i}"), "eui64": Sym(f"eui{i}"), "type": Sym(f"type{i}")}, tag=f"child{i}")
+            vals = {"status": status, "nodeId": Sym(f"nwk{i}"), "childId": Sym(f"nwk{i}"), "eui64": Sym(f"eui{i}"), "childEui64": Sym(f"eui{i}"),
+                    "nodeType": Sym(f"type{i}"), "childType": Sym(f"type{i}"), "childData": child, "child_data": child}
+            missing = [n for n in rx if n not in vals]
+            if missing:
+                raise AnalysisError(f"v{v} getChildData response has fields {missing} this rule has no value for")
+            return tuple(vals[n] for n in rx)
+
+        px = PX(repo, inline=same_class(), models=[("self.getChildData", answer)], fork_loop_bound=600)
+        paths = px.explore(m, lambda: (asked.clear() or self_obj(c, {}), {}))
+        ctx.anchor(len(paths) == 1, f"v{v} read_child_data: one path over a concrete table ({len(paths)})")
+        for p in paths:
+            ctx.paths += 1
+            got = [tuple(getattr(x, "tag", x) for x in (e.args[0] if e.args and isinstance(e.args[0], tuple) else e.args)) for e in p.events if e.kind == "yield"]
+            want = [("nwk0", "eui0", "type0"), ("nwk2", "eui2", "type2")]
+            first = min((e.kwargs.get("index", e.args[0] if e.args else None) for e in p.events if e.kind == "await" and e.what.endswith("getChildData")), default=None)
+            ctx.require(p.terminal == "return" and got == want and first == 0, f"children-read:v{v}",
+                        f"v{v} read_child_data over a child table with slots 0 and 2 occupied yields {got} (first slot read: {first}, {p.terminal}); must be {want}",
+                        func=m, trace=p.trace(12))
+    # the application side
+    g = repo.func(f"{APP}:ControllerApplication.load_network_info")
+    extra = [("ezsp.read_link_keys", lambda px, t, a, k, fr: [Sym("linkkey1")]),
+             ("ezsp.read_child_data", lambda px, t, a, k, fr: [(Sym("cnwk1"), Sym("ceui1"), Sym("ctype1")), (Sym("cnwk2"), Sym("ceui2"), Sym("ctype2"))]),
+             ("ezsp.read_address_table", lambda px, t, a, k, fr: [(Sym("anwk1"), Sym("aeui1"))])]
+    done = 0
+    for p in explore_load(ctx, 0x0084, load_devices=True, extra_models=extra):
+        if p.terminal != "return":
+            continue
+        done += 1
+        ctx.paths += 1
+        ni = [e for e in p.events if e.kind == "call" and e.what.endswith("NetworkInfo")]
+        ctx.anchor(len(ni) == 1, "load_network_info builds one NetworkInfo")
+        kt, ch, na = (ni[0].kwargs.get(n) for n in ("key_table", "children", "nwk_addresses"))
+        kt, ch, na = (list(kt) if isinstance(kt, list) else kt), (list(ch) if isinstance(ch, list) else ch), (dict(na) if isinstance(na, dict) else na)
+        # the collections may be filled after the NetworkInfo object was built (appends / item stores on its attributes)
+        for e in p.events[p.events.index(ni[0]):]:
+            w = str(e.what)
+            for name, coll in (("key_table", kt), ("children", ch)):
+                if isinstance(coll, list) and e.kind == "call" and w.endswith(f".{name}.append") and e.args:
+                    coll.append(e.args[0])
+                elif isinstance(coll, list) and e.kind == "call" and w.endswith(f".{name}.extend") and e.args and isinstance(e.args[0], (list, tuple)):
+                    coll.extend(e.args[0])
+                elif e.kind in ("call", "write") and f".{name}." in w and not w.endswith((".append", ".extend")):
+                    raise AnalysisError(f"load_network_info modifies {name} through {w}, which this rule does not model")
+            if isinstance(na, dict) and e.kind == "write" and w.endswith(".nwk_addresses[]") and len(e.args) == 2:
+                na[e.args[0]] = e.args[1]
+            elif ".nwk_addresses." in w and e.kind in ("call", "write"):
+                raise AnalysisError(f"load_network_info modifies nwk_addresses through {w}, which this rule does not model")
+        ctx.require(kt == [Sym("linkkey1")] and ch == [Sym("ceui1"), Sym("ceui2")] and
+                    na == {Sym("ceui1"): Sym("cnwk1"), Sym("ceui2"): Sym("cnwk2"), Sym("aeui1"): Sym("anwk1")}, "load:devices",
+                    f"load_network_info(load_devices=True) records link keys {kt!r}, children {ch!r}, network addresses {na!r}; children are listed by EUI64 and "
+                    "nwk_addresses maps EUI64 -> network address (write_network_info looks children up that way)", func=g, trace=p.trace(20))
+    ctx.anchor(done >= 1, "load_network_info(load_devices=True) completes")
